@@ -822,7 +822,32 @@ func ruleBlobProvenance(c *Check, p *Prog) {
 		return
 	}
 	okH := false
-	for _, cl := range sh.AnonFuncs {
+	// the marshal function may be a closure of the caller or a function of the package handed over as a value
+	marshalCands := func(caller *ssa.Function) []*ssa.Function {
+		out := append([]*ssa.Function{}, caller.AnonFuncs...)
+		for _, b := range caller.Blocks {
+			for _, in := range b.Instrs {
+				call, ok := in.(*ssa.Call)
+				if !ok || call.Common().StaticCallee() == nil || !isSubmitterFn(call.Common().StaticCallee()) {
+					continue
+				}
+				for _, a := range call.Common().Args {
+					v := a
+					if ct, isCT := v.(*ssa.ChangeType); isCT {
+						v = ct.X
+					}
+					if mc, isMC := v.(*ssa.MakeClosure); isMC {
+						v = mc.Fn
+					}
+					if af, isF := v.(*ssa.Function); isF && af.Blocks != nil && fnPkg(af) != nil && fnPkg(af).Pkg.Path() == rootPath+"/block" {
+						out = append(out, af)
+					}
+				}
+			}
+		}
+		return out
+	}
+	for _, cl := range marshalCands(sh) {
 		if cl.Signature.Results().Len() != 2 {
 			continue
 		}
